@@ -514,6 +514,62 @@ def deferred_event_harness(k):
     return harness
 
 
+def listener_object_harness(ex):
+    """add_trait_listener(listener, prefix): the listener object's methods named <prefix>_<name>_changed / <prefix>_<name>_fired /
+    <prefix>_anytrait_changed are handlers of <name> like any other - called exactly once per change, never otherwise, and not at all
+    after remove_trait_listener"""
+    push_exception_handler(lambda *a: None, reraise_exceptions=False)
+    try:
+        prefix = ["", "alt", "alt_", "x"][ex.choice("prefix", 4)]
+        p_ = (prefix if prefix.endswith("_") else prefix + "_") if prefix else "_"
+        calls = []
+
+        def mk(label):
+            return lambda self, *a: calls.append(label)
+
+        ns = {p_ + "x_changed": mk("x_changed"), p_ + "go_fired": mk("go_fired"), p_ + "go_changed": mk("go_changed"),
+              p_ + "y_fired": mk("y_fired"), p_ + "anytrait_changed": mk("anytrait"),
+              "other_x_changed": mk("foreign prefix"), p_ + "nosuch_changed": mk("no such trait")}
+        for n_, f_ in ns.items():
+            f_.__name__ = n_          # (bound-method handlers are found again by name)
+        Listener = type("Listener", (object,), ns)
+
+        class O(HasTraits):
+            x = Int(0)
+            y = Int(0)
+            go = Event()
+
+        o, listener = O(), Listener()
+        o.add_trait_listener(listener, prefix) if prefix else o.add_trait_listener(listener)
+        removed = False
+        val = 1000
+        for step in range(3):
+            op = ex.choice("op%d" % step, 5)
+            del calls[:]
+            val += 1
+            if op == 0:
+                o.x = val
+                want = ["anytrait", "x_changed"]
+            elif op == 1:
+                o.x = o.x                       # no change
+                want = []
+            elif op == 2:
+                o.go = val
+                want = ["anytrait", "go_changed", "go_fired"]
+            elif op == 3:
+                o.y = val
+                want = ["anytrait", "y_fired"]
+            else:
+                o.remove_trait_listener(listener, prefix) if prefix else o.remove_trait_listener(listener)
+                removed = True
+                continue
+            ex.check(sorted(calls) == ([] if removed else want),
+                     "the listener object's conventionally named methods are called exactly once per change of their trait (none after removal)")
+        return {"prefix": prefix}
+    finally:
+        pop_exception_handler()
+
+
 def obligations(tier, build):
     cenv.load_program(build)
     obs = []
@@ -587,6 +643,9 @@ def obligations(tier, build):
                                           "exception handler": "observe's default (logging)"},
                                   leverage="choice feasibility only", max_paths=2000))
     KD = 3 if tier == "quick" else 4
+    obs.append(Obligation("listener-object", listener_object_harness, stubs=[],
+                          bounds={"history length": 3, "prefixes": ["(default)", "alt", "alt_", "x"], "methods": "<prefix>_<name>_changed / _fired / anytrait"},
+                          leverage="choice feasibility only (compiled code runs concretely)"))
     obs.append(Obligation("deferred-event/k=2", deferred_event_harness(2), stubs=[],
                           bounds={"history length": 2, "operations": ["fire through the deferring attribute", "fire on the target", "rejected value", "same value again"],
                                   "deferral": "DelegatesTo / PrototypedFrom, listenable or not"},
